@@ -273,6 +273,25 @@ func (w *World) Prepare(o *Obligation, lemmaMax int) ([]*Term, *prep) {
 	cands := map[string]map[*Term]bool{}
 	collectCands(base, cands)
 	addHintCands(cands, hints.Insts)
+	// pre-pass: create the skolem constants of the goal / existential hypotheses; they are
+	// instantiation candidates for bound variables of the same class
+	for _, f := range base {
+		p.inst(f, true, map[string]map[*Term]bool{})
+	}
+	p.nInst = 0
+	addSkolems := func() {
+		for q, m := range p.skolems {
+			for _, b := range q.Bound {
+				mm := cands[b.Key]
+				if mm == nil {
+					mm = map[*Term]bool{}
+					cands[b.Key] = mm
+				}
+				mm[m[b]] = true
+			}
+		}
+	}
+	addSkolems()
 	runInst := func() ([]*Term, []*Term) {
 		var nb, nd []*Term
 		for _, f := range base {
@@ -301,7 +320,7 @@ func (w *World) Prepare(o *Obligation, lemmaMax int) ([]*Term, *prep) {
 			}
 			if !unfolded[a] && fn.Body != nil && !hints.NoUnfold && ((fn.Recursive && !fn.Opaque) || hints.Reveal[name]) {
 				d := fromUnfold[a]
-				if d < fuel {
+				if d < fuel || !fn.Recursive {
 					eq, err := w.unfoldApp(a)
 					if err != nil {
 						w.errorf("%s: %v", o.Name, err)
@@ -345,7 +364,7 @@ func (w *World) Prepare(o *Obligation, lemmaMax int) ([]*Term, *prep) {
 		nb, nd := runInst()
 		result = append(append([]*Term(nil), nb...), nd...)
 		// derived facts to a fixpoint bounded by fuel (unfolding apps inside unfold equations)
-		for k := 0; k < fuel+1; k++ {
+		for k := 0; k < fuel+6; k++ {
 			all := append(append([]*Term(nil), result...), derived...)
 			if !derive(all) {
 				break
@@ -358,6 +377,7 @@ func (w *World) Prepare(o *Obligation, lemmaMax int) ([]*Term, *prep) {
 		}
 		// next generation of candidates: marked terms of instances of base formulas
 		collectCands(nb, cands)
+		addSkolems()
 	}
 	// dedupe
 	seen := map[*Term]bool{}
